@@ -20,6 +20,16 @@ REPO = "/repo"
 
 # (property, relative file, old text, new text, substring of the unit expected to fail)
 MUTANTS = [
+    ("C30", "unified_planning/engines/compilers/ks0_compiler.py", "            return literal.arg(0), True\n", "            return literal.arg(0), False\n", "_literal_parts"),
+    ("C30", "unified_planning/engines/compilers/ks0_compiler.py", "        return fluent_exp if is_negative else expression_manager.Not(fluent_exp)\n",
+     "        return expression_manager.Not(fluent_exp) if is_negative else fluent_exp\n", "_negate_literal"),
+    ("C30", "unified_planning/engines/compilers/ks0_compiler.py", "            value = (index == chosen_index) != is_negative\n", "            value = (index == chosen_index) == is_negative\n", "_assign_oneof_choice[soundness]"),
+    ("C30", "unified_planning/engines/compilers/ks0_compiler.py", "            if assignment.setdefault(atom, value) != value:\n                return False\n",
+     "            if assignment.setdefault(atom, value) != value:\n                continue\n", "_assign_oneof_choice[soundness]"),
+    ("C30", "unified_planning/engines/compilers/ks0_compiler.py", "            if assignment.setdefault(atom, value) != value:\n                return False\n",
+     "            if assignment.setdefault(atom, value) != value or index > chosen_index + 1:\n                return False\n", "_assign_oneof_choice[completeness]"),
+    ("C30", "unified_planning/engines/compilers/ks0_compiler.py", "        return assignment[atom] != is_negative\n", "        return assignment[atom] == is_negative\n", "_literal_holds"),
+    ("C30", "unified_planning/engines/compilers/ks0_compiler.py", "        return ActionInstance(old_action, action_instance.actual_parameters)\n", "        return ActionInstance(old_action)\n", "_map_back_ks0_action_instance"),
     ("C31", "unified_planning/engines/compilers/interpreted_functions_remover.py",
      "            len_start = len(found_fluents_set)\n", "            len_start = len_end\n", "_find_changing_fluents"),
     ("C31", "unified_planning/engines/compilers/interpreted_functions_remover.py",
